@@ -1339,6 +1339,8 @@ func c11partialDrain(rep *vh.Report, seed uint64, idx int) {
 }
 
 // c11tcp: the same fan-out properties over real TCP connections (server endpoint, k loopback peers).
+var c11tcpRefused int32
+
 func c11tcp(rep *vh.Report, seed uint64, idx int) {
 	if aborted() {
 		return
@@ -1497,10 +1499,16 @@ func c11tcp(rep *vh.Report, seed uint64, idx int) {
 				case "FrameAll":
 					_ = node.WriteFrameAll(&frame.V2Frame{SequenceNumber: byte(i), SystemID: 3, ComponentID: 4, Message: m})
 				}
+				if gr.Chance(1, 6) {
+					// directly behind it, an item the links refuse (an id outside the dialect): it costs nothing but itself
+					_ = node.WriteMessageAll(&message.MessageRaw{ID: 99999, Payload: []byte{1, 2, 3}})
+					atomic.AddInt32(&c11tcpRefused, 1)
+				}
 			}
 		}(g)
 	}
 	wg.Wait()
+	rep.Count("tcp_refused_items_written_directly_behind_good_ones", int(atomic.SwapInt32(&c11tcpRefused, 0)))
 	total := func() int64 {
 		var n int64
 		for _, p := range peers {
